@@ -444,14 +444,14 @@ let lifecycle_case (toks : string list) : string =
         | _ -> [])
       else (match b with
         | "c" -> [ M.EAccept f; M.EEof f ]
-        | "f" | "k" | "h" -> [ M.EAccept f; M.EData f; M.EEof f ]
+        | "f" | "k" | "h" | "z" -> [ M.EAccept f; M.EData f; M.EEof f ]
         | "d" | "b" -> [ M.EAccept f; M.EData f; M.EEof f ]
         | "r" -> [ M.EAccept f; M.EData f; M.EErr0 f ]
         | "i" -> [ M.EAccept f; M.EIdle f ]
         | "j" | "m" -> [ M.EAccept f; M.EData f; M.EIdle f ]
         | "w" -> [ M.EAccept f; M.EData f; M.EWriteFail f; M.EErr0 f ]   (* the 408 never gets written: no idle close *)
         | _ -> []) in
-    let request_seen b = List.mem b [ "f"; "k"; "h"; "r"; "m"; "w" ] in
+    let request_seen b = List.mem b [ "f"; "k"; "h"; "r"; "m"; "w"; "z" ] in
     (* interleave the connections of one round event by event *)
     let rec interleave (ls : M.ev0 list list) : M.ev0 list =
       let heads = List.filter_map (function [] -> None | x :: _ -> Some x) ls in
@@ -673,6 +673,22 @@ let wire_case (toks : string list) : string =
     (match M.put_on_wire (nat_of_int (int_of_string cap)) (n_of_int (int_of_string code)) hs cs (bytes_of_hex body) with
      | M.Emitted (b, n) -> Printf.sprintf "P emitted %s size=%d" (hex_of_string (canon_wire (str_of_bytes b))) (int_of_nat n)
      | M.Rejected0 -> "P rejected received=0")
+  | [ "U"; code; cap; items ] when
+      List.exists (fun it -> String.length it > 1 && (it.[0] = 'w' || it.[0] = 'l') && (String.length it - 1) / 2 + 20 > int_of_string cap)
+        (String.split_on_char ',' items) ->
+    ignore code; "U UNSUPPORTED-BY-MODEL a chunk exceeds the response buffer: the handler gets an error (checked by the oracle)"
+  | [ "U"; code; _cap; items ] ->
+    (* the data written, as text: what operator<< of an ostream prints for the value; empty pieces carry nothing *)
+    let piece it =
+      let arg = if String.length it > 1 then String.sub it 1 (String.length it - 1) else "" in
+      match it.[0] with
+      | 'w' | 's' | 'l' | 'c' | 'a' -> Some (bytes_of_hex arg)
+      | 'i' | 'u' -> Some (bytes_of_string arg)
+      | 'b' -> Some (bytes_of_string arg)
+      | _ -> None in
+    let cs = List.filter (fun c -> c <> []) (List.filter_map piece (List.filter (fun x -> x <> "") (String.split_on_char ',' items))) in
+    let hs = [ (bytes_of_string "Connection", bytes_of_string "Keep-Alive") ] in
+    "U " ^ hex_of_string (canon_wire (str_of_bytes (M.render_stream (n_of_int (int_of_string code)) hs [] cs)))
   | [ "T"; code; chunks ] ->
     let cs = if chunks = "-" then [] else List.map bytes_of_hex (String.split_on_char ',' chunks) in
     let hs = [ (bytes_of_string "Connection", bytes_of_string "Keep-Alive") ] in
